@@ -215,6 +215,7 @@ def run(ctx):
               f"{[(ev[k], td.get(k)) for k in diff[:2]]}", None,
               detail=f"{len(ev)} rows equal up to DTEND<->DUE")
     journal_table(ctx)
+    _pytz_table(ctx)
     ctx.floor("C16/DT-END", 60)
 
 
@@ -311,6 +312,34 @@ def getter_table(ctx, it, ci, endp):
                   f"(start, end, duration) = {got}, expected {exp}", ci.loc(),
                   detail=" | ".join(got))
     return table
+
+
+def _pytz_table(ctx):
+    """The same getters under the pytz provider model with a zoned start: pytz keeps the
+    old offset after arithmetic (instant right, wall clock possibly stale); re-reading
+    that wall clock in the zone would move the instant, so end - start != DURATION."""
+    m = ctx.model
+    it = Interp(m, provider="pytz")
+    vddd = ClassVal(m.cls("prop.vDDDTypes"))
+    vdur = ClassVal(m.cls("prop.vDuration"))
+    for cq, endp in (("cal.Event", "DTEND"), ("cal.Todo", "DUE")):
+        ci = m.cls(cq)
+        for dshape in ("days", "secs", "daystime"):
+            comp = it.call(ClassVal(ci), [], {})
+            comp.items["DTSTART"] = it.call(vddd, [DT("zoned", 1, {"START": 1}, "Europe/Berlin")], {})
+            comp.items["DURATION"] = stored(it, m, dshape, "DUR")
+            try:
+                v = it.getattr(comp, "end")
+            except AbsRaise as ex:
+                ctx.fail("C16/DT-END", f"[pytz] {ci.name} zoned DTSTART + DURATION={dshape}",
+                         f"end raises {ex.cls_name}", ci.loc())
+                continue
+            except Unsupported as ex:
+                raise AnalysisError(f"[pytz] {ci.name}.end leaves the abstract interface: {ex}")
+            good = isinstance(v, DT) and term_str(v.term) == "DUR + START" and v.tag != "instant-moved"
+            ctx.check(good, "C16/DT-END", f"[pytz] {ci.name} zoned DTSTART + DURATION={dshape}",
+                      f"end = {v!r}{' (the wall clock of start + DURATION, which still carries the old offset, is re-read in the zone: the instant moves by the DST delta, end - start != DURATION)' if isinstance(v, DT) and v.tag == 'instant-moved' else ''}; "
+                      f"expected the instant start + DURATION", ci.loc(), detail="DUR + START")
 
 
 def journal_table(ctx):
